@@ -261,9 +261,11 @@ def r2_escape_chain(ctx):
     f = ctx.func('error_html', 'escape_html_chars')
     funcs = helper_oracles(ctx, 'error_html')
 
+    rxenv = A.module_regexes(ctx.mod('error_html').tree)
+
     def esc(t):
         try:
-            return run_function(ctx.cfg(f), f, [t], funcs)
+            return run_function(ctx.cfg(f), f, [t], funcs, env=dict(rxenv))
         except (NotClosedTest, A.NotClosed) as e:
             raise AnalysisError('escape_html_chars cannot be evaluated on the text %r: %s' % (t, e))
     import html as _html
